@@ -88,10 +88,10 @@ theorem phaseCase_shape3 (c : Cfg) (s : St) :
     · exact hd
     · exact Plain.via c hd
   · rw [pc12 c s h]; right; right
-    obtain ⟨h1, h2, h3⟩ := afterPE_calls c (sendPass c s)
-    refine ⟨by rw [h1]; simp [sendPass, emit, liftF], ?_, ?_⟩
-    · rw [h2]; simp [sendPass, emit, liftF, runSend, (sendLoop_cursor _ _ _).2]
-    · rw [h3]; simp [sendPass, emit, liftF]
+    obtain ⟨h1, h2, h3⟩ := afterPE_calls c (sendPassE c s)
+    refine ⟨by rw [h1]; simp [sendPassE, sendPass, emit, liftF], ?_, ?_⟩
+    · rw [h2]; simp [sendPassE, sendPass, emit, liftF, runSend, (sendLoop_cursor _ _ _).2]
+    · rw [h3]; simp [sendPassE, sendPass, emit, liftF]
   · rw [pc13 c s h]; left; split
     · split
       · obtain ⟨h1, _, h3, _, _, h6, _⟩ := afterPEd_true_frame c s
@@ -129,6 +129,13 @@ theorem step_shape3 (c : Cfg) (s : St) : Plain s (step c s) ∨ RecvStep c s (st
   split
   · exact Or.inl (Plain.same rfl rfl rfl)
   · split
+    · -- [proxy8] what follows the exhausted task loop: no filter pass
+      rcases finishStart_cases c s with ⟨_, e⟩ | ⟨_, e⟩ | ⟨_, e⟩ | ⟨_, _, e⟩ <;> rw [e]
+      · exact Or.inl (Plain.same rfl rfl rfl)
+      · exact Or.inl (Plain.same rfl rfl rfl)
+      · exact Or.inl (Plain.same rfl rfl rfl)
+      · exact Or.inl (Plain.via c (Plain.same rfl rfl rfl))
+    split
     · exact Or.inl (Plain.same (by simp) (by simp [ret_toFState]) (by simp [ret_toFState]))
     · exact phaseCase_shape3 c { s with inner := s.inner + 1 }
 
@@ -404,8 +411,8 @@ theorem phaseCase_clean (c : Cfg) (s : St) (hd : PhaseData c s.view s.phase) : C
     · exact hdel.1
     · exact Clean.via c hdel.1
   · rw [pc12 c s h]
-    exact Clean.via c (Clean.emit1 (.spass s.scursor (runSend c.send s.toFState).2) (by simp [sendPass, emit, liftF]) rfl
-      (by simp [sendPass, emit, liftF]))
+    exact Clean.via c (Clean.emit1 (.spass s.scursor (runSend c.send s.toFState).2) (by simp [sendPassE, sendPass, emit, liftF]) rfl
+      (by simp [sendPassE, sendPass, emit, liftF]))
   · rw [pc13 c s h]; split
     · split
       · obtain ⟨h1, _, _, _, _, _, h7⟩ := afterPEd_true_frame c s
@@ -448,6 +455,10 @@ theorem step_Uinv (c : Cfg) (s : St) (hg : Ginv c s) (hu : Uinv s) : Uinv (step 
   · exact hu
   · rename_i hnh
     have hnh : s.halted = false := by simpa using hnh
+    split
+    · -- [proxy8] what follows the exhausted task loop
+      obtain ⟨⟨ft, _, _, _, _, _, fb⟩, _⟩ := finishStart_form c s hg hnh
+      exact ⟨by rw [ft]; exact hu.nounm, by rw [fb]; exact hu.noblock⟩
     split
     · exact ⟨by rw [ret_trace]; exact hu.nounm, by
         have : (ret s End).blocked = s.blocked := ret_blocked s End
